@@ -11,6 +11,13 @@ from concurrent.futures import ThreadPoolExecutor
 import esrv
 
 PROPS_V = "Props/C10.v"
+# functions the hand-written model of this property was written against (normalised source stored under harness/corr/guards/;
+# a difference is reported as broken-correspondence: the theorems then no longer speak about the current source)
+SOURCE_GUARDS = [
+    ("esr/fitting/test_all.py", "optimise_fun"),
+    ("esr/fitting/test_all.py", "chi2_fcn"),
+]
+
 TRANSLATORS = []
 IMPL = os.path.join(esrv.VERIF, "harness", "corr", "c10_impl.py")
 TRUSTED = [
